@@ -3,17 +3,31 @@
 (* internal/reghttp and scheme/reg (drivers harness/cmd/c12drv: transports of *)
 (* the model hosts + API results) through the monitor RegHttpProp.  Mirrors   *)
 (* no code.  One monitor step per line; `bad` latches the first violated      *)
-(* obligation (invariant Ok).                                                  *)
+(* obligation of the current trace, `badl` the line where that happened.      *)
+(*   TSpec    + INVARIANT Ok: stops at the first rejected trace (used through *)
+(*            vlib.validate_batch: binding demo, small batches)               *)
+(*   TSpecAll no invariant: every rejected trace is printed when the next     *)
+(*            trace begins (<<"REJ", trace id, obligation, line>>), so one    *)
+(*            TLC run validates a whole batch (the runner appends a final     *)
+(*            reset line as sentinel).                                        *)
 EXTENDS RegHttpProp, Json, IOUtils
 Log == ndJsonDeserialize(IOEnv.VERIF_TRACE)
-VARIABLES l, m, bad
+VARIABLES l, m, bad, badl, tid
+tvars == <<l, m, bad, badl, tid>>
 Ev == Log[l]
-TInit == l = 1 /\ m = MZero /\ bad = ""
-TNext == /\ l <= Len(Log)
-         /\ l' = l + 1
-         /\ m' = PStep(m, Ev)
-         /\ bad' = m'.bad
-TSpec == TInit /\ [][TNext]_<<l, m, bad>>
+TInit == l = 1 /\ m = MZero /\ bad = "" /\ badl = 0 /\ tid = ""
+Step == /\ l <= Len(Log)
+        /\ l' = l + 1
+        /\ m' = PStep(m, Ev)
+        /\ bad' = m'.bad
+        /\ badl' = IF Ev.ev = "reset" THEN 0 ELSE IF bad = "" /\ m'.bad # "" THEN l ELSE badl
+        /\ tid' = IF Ev.ev = "reset" THEN Ev.trace ELSE tid
+TNext == Step
+TSpec == TInit /\ [][TNext]_tvars
+TNextAll == /\ l <= Len(Log)
+            /\ (Ev.ev = "reset" /\ bad # "") => PrintT(<<"REJ", tid, bad, badl>>)
+            /\ Step
+TSpecAll == TInit /\ [][TNextAll]_tvars
 Ok == bad = ""
 HW == TLCSet(1, IF TLCGet(1) > l THEN TLCGet(1) ELSE l)
 Accepted == PrintT(<<"HIGHWATER", TLCGet(1), Len(Log)>>)
